@@ -148,6 +148,11 @@ let run_case (line : Stdlib.String.t) =
           out_str "R"; out_zlist (fed_bytes !st);
           st := { !st with m_fed = [] })
      done
+   | "c14" ->
+     (* line, cursor, candidate: the prefix the engine computes and the completed line *)
+     let l = next_zlist t in let c = next_z t in let v = next_zlist t in
+     out_res (fun p -> out_zlist p) (set_prefix l c);
+     out_res (fun (cl, cc) -> out_zlist cl; out_z cc) (complete_with l c v)
    | "edcmds" -> out_list out_zlist modelled_commands
    | "quote" -> let c = next_z t in out_zlist (quote c)
    | _ -> out_str ("UNKNOWN-OP " ^ op));
